@@ -243,7 +243,79 @@ def bounded(tier, seed, procs):
             b3.case(name, sample=name)
             if r != ("val", want):
                 b3.fail(Failure("special", f"case={name}", dict(kind="special", case=name), expected=str(want), actual=outcome.describe(r), functions=["primitives"]))
-    return [b1, b2, b3, b_class_histories(tier)]
+    return [b1, b2, b3, b_class_histories(tier), b_post_init(tier)]
+
+
+def b_post_init(tier):
+    """Normalisation done in __post_init__: any mapping given as kw_parameters, comparison operators by name, CSE scope default."""
+    import collections
+    import types
+    import pymbolic.primitives as p
+    from immutabledict import immutabledict
+    b = BoundedRun("post-init-normalisation", rule="CallWithKwargs built directly with every kind of mapping as kw_parameters (dict, OrderedDict, defaultdict, immutabledict, "
+                   "MappingProxyType, UserDict, ChainMap, a user Mapping class; empty, one and two entries, two insertion orders): the node is hashable, equals (both ways, same "
+                   "hash, same dict key) the node built from an immutabledict with the same entries, differs from one with other entries, and does not change when the caller "
+                   "mutates the mapping afterwards; Comparison operators given by name equal the symbol form; CommonSubexpression(scope=None) equals the default scope",
+                   bound="8 mapping kinds x 4 contents x pairs", functions=["CallWithKwargs.__post_init__", "Comparison.__post_init__", "CommonSubexpression.__post_init__"])
+
+    class MyMap(collections.abc.Mapping):
+        def __init__(self, d):
+            self._d = dict(d)
+
+        def __getitem__(self, k):
+            return self._d[k]
+
+        def __iter__(self):
+            return iter(self._d)
+
+        def __len__(self):
+            return len(self._d)
+    x, y, f = trees.X, trees.Y, trees.F
+    contents = [{}, {"a": x}, {"a": x, "b": 2}, {"b": 2, "a": x}]
+    kinds = {"dict": dict, "OrderedDict": collections.OrderedDict, "defaultdict": lambda d: collections.defaultdict(int, d), "immutabledict": immutabledict,
+             "MappingProxyType": lambda d: types.MappingProxyType(dict(d)), "UserDict": collections.UserDict, "ChainMap": lambda d: collections.ChainMap(dict(d)), "MyMap": MyMap}
+    with warnings.catch_warnings():
+        warnings.simplefilter("ignore")
+        for kname, mk in kinds.items():
+            for ci, cont in enumerate(contents):
+                src = mk(cont)
+                r = outcome.run(lambda: p.CallWithKwargs(f, (y,), src))
+                b.case(("kw", kname, ci), sample=dict(mapping=kname, entries=sorted(cont)))
+                ref = p.CallWithKwargs(f, (y,), immutabledict(cont))
+                other = p.CallWithKwargs(f, (y,), immutabledict({**cont, "zz": 1}))
+                chk = outcome.run(lambda: (hash(r[1]) == hash(ref), r[1] == ref, ref == r[1], ref in {r[1]: 1}, r[1] != other, dict(r[1].kw_parameters) == dict(cont))) if r[0] == "val" else r
+                if chk != ("val", (True, True, True, True, True, True)):
+                    b.fail(Failure("post-init-normalisation", f"what=kw-mapping kind={kname} entries={sorted(cont)}", dict(kind="postinit", mapping=kname, entries=sorted(cont)),
+                                   expected="hashable, equal to the immutabledict form", actual=outcome.describe(chk)[:200], functions=["CallWithKwargs.__post_init__"]))
+                    continue
+                # the caller mutates its mapping afterwards
+                h0 = hash(r[1])
+                try:
+                    if kname in ("dict", "OrderedDict", "defaultdict", "UserDict"):
+                        src["late"] = 5
+                    elif kname == "ChainMap":
+                        src.maps[0]["late"] = 5
+                    elif kname == "MyMap":
+                        src._d["late"] = 5
+                except Exception:   # noqa: BLE001
+                    pass
+                chk2 = outcome.run(lambda: (hash(r[1]) == h0, r[1] == ref, "late" not in r[1].kw_parameters))
+                if chk2 != ("val", (True, True, True)):
+                    b.fail(Failure("post-init-normalisation", f"what=kw-mapping-aliased kind={kname} entries={sorted(cont)}", dict(kind="postinit", mapping=kname), expected="node unchanged",
+                                   actual=outcome.describe(chk2)[:200], functions=["CallWithKwargs.__post_init__"]))
+        for nm, sym in (("eq", "=="), ("ne", "!="), ("le", "<="), ("lt", "<"), ("ge", ">="), ("gt", ">")):
+            r = outcome.run(lambda: (p.Comparison(x, nm, y) == p.Comparison(x, sym, y), hash(p.Comparison(x, nm, y)) == hash(p.Comparison(x, sym, y)), p.Comparison(x, nm, y).operator))
+            b.case(("cmp", nm))
+            if r != ("val", (True, True, sym)):
+                b.fail(Failure("post-init-normalisation", f"what=comparison-name op={nm}", dict(kind="postinit", op=nm), expected=f"normalised to {sym}", actual=outcome.describe(r)[:150],
+                               functions=["Comparison.__post_init__"]))
+        r = outcome.run(lambda: (p.CommonSubexpression(x, None, None) == p.CommonSubexpression(x), hash(p.CommonSubexpression(x, "q", None)) == hash(p.CommonSubexpression(x, "q")),
+                                 p.CommonSubexpression(x, None, None).scope))
+        b.case(("cse-scope",))
+        if r != ("val", (True, True, p.cse_scope.EVALUATION)):
+            b.fail(Failure("post-init-normalisation", "what=cse-scope-default", dict(kind="postinit"), expected="scope None -> EVALUATION", actual=outcome.describe(r)[:150],
+                           functions=["CommonSubexpression.__post_init__"]))
+    return b
 
 
 def b_class_histories(tier):
